@@ -314,7 +314,7 @@ Section Funcs.
     destruct i as [|k|p s|p k fs|p lo|p lo]; [reflexivity| | | | |].
     - (* typed nil pointer *)
       unfold run_pfn. run. rewrite HI. run. rewrite HC. run. rewrite HO. destruct k; run; rewrite ?HL; run; rewrite HV; reflexivity.
-    - unfold run_pfn. run. rewrite HI. run. rewrite !HG. run. destruct s as [|b s]; reflexivity.
+    - unfold run_pfn. run. rewrite HI. destruct p; run; rewrite !HG; run; destruct s as [|b s]; reflexivity.
     - unfold run_pfn. run. rewrite HI. run. rewrite HC. run. rewrite HO.
       destruct k, p; run; rewrite ?HL; run; rewrite HV; reflexivity.
     - unfold run_pfn. run. rewrite HI. run. rewrite HC. destruct p, lo; reflexivity.
